@@ -1,5 +1,6 @@
 """C16 — Time values: NaT is absorbing and unit changes agree with the calendar."""
 CFG = dict(
+    src_tables=True,   # tools/gen_tables.py + Proofs/SrcTablesOk.v: tables regenerated from the Rust source on every run
     bins=["c16"],
     imports=["Run.RunC16"],
     exhaustive=False,
